@@ -189,7 +189,8 @@ def _sequential(run, rng, thorough):
         real_time = H.time
         H.time = _FakeTime(real_time, base)
         try:
-            g = H.SessionGenerator("host%d.example.net" % (s % 7))
+            ident = "Host%d.Example.NET" % (s % 7)      # the identity as configured, capitals included
+            g = H.SessionGenerator(ident)
         finally:
             H.time = real_time
         g._sequence = s
@@ -225,7 +226,7 @@ def _sequential(run, rng, thorough):
             if not fmt_ok:
                 run.violation("session-format", case, v)
             sess_texts.append("(%s, %d, %d, [%s], %s)" % (
-                vlib.coq_string(g.diameter_identity), base, nums[k],
+                vlib.coq_string(ident), base, nums[k],
                 "; ".join(vlib.coq_string(o) for o in opt), vlib.coq_string(v)))
             sess_meta.append((case, k, v))
         run.sample({"kind": "session-id", "start": s, "first": ids[0][0]})
